@@ -371,6 +371,31 @@ static void embedded_strings(void) {
   del(arr); del(lst); del(tab); del(tre);
 }
 
+
+/* a value handed to a thread through the Thread object's own storage before the thread is started: the Thread
+   object (live on this stack) is what keeps it; a collecting build must not lose it while garbage is produced */
+static volatile int64_t thread_result;
+static var read_own_storage(var args) {
+  var v = get(current(Thread), $S("input"));
+  thread_result = c_int(v) * 2 + (int64_t)len(args);
+  return NULL;
+}
+static void __attribute__((noinline)) stash_input(var t, int64_t v) { set(t, $S("input"), new(Int, $I(v))); }
+static void thread_storage(void) {
+  var fn = $(Function, read_own_storage);
+  var t = new(Thread, fn);
+  int64_t v = 100 + below(900);
+  stash_input(t, v);
+  for (int i = 0; i < 4000; i++) { var g = new(Int, $I(i)); (void)g; }       /* garbage: collections in the collecting builds */
+  var held = mem(t, $S("input")) ? get(t, $S("input")) : NULL;
+  OUT("thread storage before start: %" PRId64, held ? c_int(held) : -1);
+  thread_result = -1;
+  call(t);
+  join(t);
+  OUT("thread read its input and computed %" PRId64, (int64_t)thread_result);
+  del(t);
+}
+
 static void files(const char* dir_tag) {
   char path[128]; snprintf(path, sizeof path, "c18-%s.tmp", dir_tag);
   var f = new(File, $S(path), $S("w+"));
@@ -398,7 +423,7 @@ int main(int argc, char** argv) {
   int rounds = 3 + (int)below(3);
   for (int i = 0; i < rounds; i++) {
     OUT("--- round %d", i);
-    sequences(); maps(); strings_and_formats(); exceptions(); values_and_types(); user_types(); embedded_strings(); files(tag);
+    sequences(); maps(); strings_and_formats(); exceptions(); values_and_types(); user_types(); embedded_strings(); thread_storage(); files(tag);
   }
   OUT("done");
   return 0;
